@@ -318,7 +318,7 @@ func runC20(r *simkit.R) {
 				out.excused = false
 				if op.faulted {
 					out.bad = "a shard call of it had failed"
-				} else if op.flag2 && op.kind == "tomb" {
+				} else if op.flag2 && (op.kind == "tomb" || op.kind == "put") {
 					out.bad = "a shard was not read-write during it"
 				} else if op.kind == "tomb" {
 					for o := range inFlight {
